@@ -187,7 +187,7 @@ def run(ctx, params):
         for i, e in enumerate(elements):
             if i % parts != part or not gen.buildable(e):
                 continue
-            for j in range(50):
+            for j in range(400):
                 t = gen.valid_tree(e, ctx.rng, ctx.rng.choice([3, 10, 30, 80]))
                 ctx.distinct(("tree", e, snapshot.value(t)))
                 judge_tree(ctx, t, f"generated tree rooted at {e}", {"element": e, "kind": "random"},
